@@ -5,6 +5,10 @@
  *
  *   FAULTIO_PATTERN   substring of the path given to fopen (required)
  *   FAULTIO_OP        write | flush | close          (which kind of call fails)
+ *                     space: the device is full beyond FAULTIO_LIMIT bytes of the file: every write call
+ *                     that would store a byte at an offset >= FAULTIO_LIMIT fails, writes that stay below
+ *                     (a later rewrite of the beginning of the file) succeed
+ *   FAULTIO_LIMIT     byte offset for `space` 
  *   FAULTIO_N         1-based index of the failing call among the calls of that kind on
  *                     matching streams (0 = never; "write" counts fwrite/fputs/fputc/putc/
  *                     fprintf/vfprintf calls)
@@ -104,6 +108,23 @@ static int fails(const char *op, long *counter, int s)
 	return f;
 }
 
+/* write-type call of `len` bytes on f: does it fail? */
+static int fails_write(FILE *f, size_t len)
+{
+	const char *want = getenv("FAULTIO_OP");
+	int s = slot(f);
+	if (s >= 0 && want && !strcmp(want, "space")) {
+		const char *ls = getenv("FAULTIO_LIMIT");
+		long limit = ls ? atol(ls) : 0, pos = ftell(f);
+		int bad = pos < 0 || pos + (long) len > limit;
+		count_write += 1;
+		if (bad) tripped = 1;
+		logop("write", count_write, s, bad ? "FAIL" : "ok");
+		return bad;
+	}
+	return fails("write", &count_write, s);
+}
+
 static void drop_pending(FILE *f)
 {
 	/* glibc: forget the bytes that are buffered but not yet written */
@@ -169,35 +190,45 @@ int fflush(FILE *f)
 size_t fwrite(const void *p, size_t sz, size_t n, FILE *f)
 {
 	init();
-	if (fails("write", &count_write, slot(f))) { mark_error(f); return 0; }
+	if (fails_write(f, sz * n)) { mark_error(f); return 0; }
 	return real_fwrite(p, sz, n, f);
 }
 
 int fputs(const char *s, FILE *f)
 {
 	init();
-	if (fails("write", &count_write, slot(f))) { mark_error(f); return EOF; }
+	if (fails_write(f, strlen(s))) { mark_error(f); return EOF; }
 	return real_fputs(s, f);
 }
 
 int fputc(int c, FILE *f)
 {
 	init();
-	if (fails("write", &count_write, slot(f))) { mark_error(f); return EOF; }
+	if (fails_write(f, 1)) { mark_error(f); return EOF; }
 	return real_fputc(c, f);
 }
 
 int putc(int c, FILE *f)
 {
 	init();
-	if (fails("write", &count_write, slot(f))) { mark_error(f); return EOF; }
+	if (fails_write(f, 1)) { mark_error(f); return EOF; }
 	return real_putc(c, f);
+}
+
+static size_t fmt_len(const char *fmt, va_list ap)
+{
+	va_list aq;
+	int n;
+	va_copy(aq, ap);
+	n = vsnprintf(NULL, 0, fmt, aq);
+	va_end(aq);
+	return n < 0 ? 0 : (size_t) n;
 }
 
 int vfprintf(FILE *f, const char *fmt, va_list ap)
 {
 	init();
-	if (fails("write", &count_write, slot(f))) { mark_error(f); return -1; }
+	if (fails_write(f, slot(f) >= 0 ? fmt_len(fmt, ap) : 0)) { mark_error(f); return -1; }
 	return real_vfprintf(f, fmt, ap);
 }
 
@@ -206,8 +237,8 @@ int fprintf(FILE *f, const char *fmt, ...)
 	va_list ap;
 	int r;
 	init();
-	if (fails("write", &count_write, slot(f))) { mark_error(f); return -1; }
 	va_start(ap, fmt);
+	if (fails_write(f, slot(f) >= 0 ? fmt_len(fmt, ap) : 0)) { va_end(ap); mark_error(f); return -1; }
 	r = real_vfprintf(f, fmt, ap);
 	va_end(ap);
 	return r;
